@@ -1,448 +1,831 @@
 /*
  * C19 - rotary encoder count equals net detent crossings for any signal sequence.
  *
- * Two exhaustive enumerations over the real rotenc.c:
+ * rotenc.c is linked as an object of its own (lib=['rotenc.c']); this file sees only <librfn/rotenc.h>. Every decoder
+ * state used anywhere below is REACHED by real rotenc_decode calls from ROTENC_VAR_INIT - no field of rotenc_t is ever
+ * written by the harness, no field order / width / completeness is assumed. The only field read is internal_count (the
+ * "internal position" of the statement), and only through differences modulo 2^16. Copies of a decoder state are copies
+ * of the whole rotenc_t image plus the image of the library's statics.
  *
- *  part 1  every (last_state, 16-bit internal position, latched count, next
- *          state) start point - independent of reachability - followed by every
- *          second next state: the +1 / -1 / 0 rule on the internal position and
- *          the "latch only at the detent state" rule, for one and two steps
- *          (the second step makes a wrong last_state update observable without
- *          looking at that field).
+ * One step function (c19_step) drives the real code and a wide-integer ghost
+ *     T  true position in quarter steps (never wraps)     L  true latched position in clicks = floor(T/4) at the last
+ *     decode whose state was the detent state 0           valid  no invalid two-bit jump so far
+ * over the alphabet  0..3 = rotenc_decode(that state) followed by rotenc_count,   r = rotenc_count14 (a pure read)
+ * and judges after a decode: position moved by exactly +1 / -1 / 0 (difference mod 2^16); rotenc_count (read into an
+ * unsigned) <= 255 and == L mod 256; within one click of T/4 while valid.   After a read: the read moved neither the
+ * position nor rotenc_count; count14 <= 0x3fff; count14 == L mod 2^14 while |T - 4L| <= 4*127 quarter steps (scope); low
+ * 8 bits agree with rotenc_count; within one click of T/4 while valid.
  *
- *  part 2  vx_bfs to a FIXPOINT from the reset state over all input sequences
- *          on the ghost-augmented machine: live state = rotenc_t + ghost
- *            T  true position in quarter steps as a wide (never wrapping) integer
- *            L  true latched position in clicks = floor(T/4) at the last decode
- *               whose state was the detent state 0 (wide integer)
- *            valid  no invalid two-bit jump so far (so detents sit at T%4==0)
- *          Scope guard: a step is enabled only if afterwards |T - 4L| <= 4W
- *          quarter steps (drift window of W clicks around the last detent
- *          reading; with invalid jumps drift is otherwise unbounded and no 8-bit
- *          latch could be right).  Canonical state = (rotenc_t fields,
- *          T mod 2^16, T - 4L, valid): every oracle and the guard depend on T and
- *          L only through these, so merged states have identical futures.
- *          After every decode: internal == T mod 2^16, rotenc_count == L mod 256,
- *          rotenc_count14 == L mod 2^14, low 8 bits agree, and - while the
- *          history has no invalid jump - both readings are within one click of
- *          the true position T/4 (circular distance in their own modulus).
+ * Enumerations (each bounded-exhaustive, partitioned over the workers):
+ *  seq    vx_bfs to a FIXPOINT from reset over all sequences of the 5 operations, a decode being enabled while afterwards
+ *         |T - 4L| <= 4W quarter steps. Canonical state = WHOLE rotenc_t image + statics of rotenc.c + (T mod 2^16,
+ *         T - 4L, previous state, valid). Reads being operations of their own, every read pattern (never / once / twice
+ *         in a row / after any number of decodes) is part of the space.
+ *  step   one and two further decodes (each followed by a read) from EVERY reachable decoder state (last_state, 16-bit
+ *         position, latched count): the states are visited by real paths - plain rotation cw / acw around the whole
+ *         16-bit circle, started on either phase (with / without an initial invalid jump), and for each latched count c
+ *         a rotation to click c followed by laps that never visit the detent (3,2,1 / 3,1,2) around the whole circle.
+ *  walk   8 walkers (cw / acw x phase x "reads count14 after every decode" / "never reads it") around the whole 14-bit
+ *         click circle; the never-reading walkers take a throw-away copy at every step and read twice there (first read
+ *         after k clicks for every k). At bases (arrivals at the detent) chosen next to the multiples of 128 clicks:
+ *    drift  6 lap patterns that never visit the detent, out to +-127 clicks from the base, count14 against the ghost
+ *           latch after every decode (on the main line or on a throw-away copy, as the walker does)
+ *    gap    300 clicks of plain rotation either way without reading count14 on the main line; read twice on a copy at
+ *           every step
+ *    rest   at each of the 4 states: 300 identical polls, after each poll every one-step continuation on a copy
+ *  dwell  every prefix of <= P decodes from reset x each of the 4 states polled N times x after every poll every
+ *         continuation of <= Q decodes, main line reading after every decode or never (hidden counters of idle polls):
+ *         many prefixes x 301 polls x deep continuations, and few prefixes x 66001 polls (past 2^16) x one-decode ones
  *
- * Read-only oracles (count14, agreement, one-click) do not prune the search: the
- * state after them is still well defined.  A wrong internal position prunes.
- * Violations are grouped in root-cause classes; only the first (= shortest,
- * BFS order is deterministic) history of each class becomes a signature, the
- * rest is counted per class.
+ * Fault capture: the families arm one VX_TRY per case (a visited state with its probes, one lap script, one dwell run); a
+ * fault is reported as a violation with its history, marks the run non-exhaustive and ends that path. The search arms the
+ * library calls only. c19_step advances vx_opseq, so the watchdog can only ever see a library call standing still.
+ *
+ * Violations are grouped in root-cause classes (family|clause); only the first history of each class becomes a signature
+ * (BFS order and the family enumeration orders are deterministic), the rest is counted. Every violation replays from its
+ * complete operation history from reset.
  */
 #include "vx.h"
 
-#include "rotenc.c"
+#include <librfn/rotenc.h>
 
 /* ------------------------------------------------------------ reference model */
 
 /* position of a 2-bit state on the clockwise cycle 00 -> 01 -> 11 -> 10 -> 00 */
-static const int8_t cyc[4] = { 0, 1, 3, 2 };
-enum { K_REPEAT, K_CW, K_JUMP, K_ACW };
-static const char *kname[4] = { "repeat", "cw", "invalid_jump", "acw" };
-static int m_kind(int from, int to) { return (cyc[to] - cyc[from]) & 3; }
-static int m_delta(int from, int to) { int k = m_kind(from, to); return k == K_CW ? 1 : k == K_ACW ? -1 : 0; }
-static int64_t floordiv4(int64_t t) { return t >= 0 ? t / 4 : -((-t + 3) / 4); }
-static uint32_t umod(int64_t v, int64_t m) { int64_t r = v % m; if (r < 0) r += m; return (uint32_t)r; }
-static uint32_t circ(uint32_t a, uint32_t b, uint32_t m) { uint32_t d = (a + m - b) % m, e = (b + m - a) % m; return d < e ? d : e; }
+static const int8_t c19_cyc[4] = { 0, 1, 3, 2 };
+static const uint8_t c19_cwnext[4] = { 1, 3, 0, 2 }, c19_acwnext[4] = { 2, 0, 3, 1 };
+enum { C19_REPEAT, C19_CW, C19_JUMP, C19_ACW };
+static const char *const c19_kname[4] = { "repeat", "cw", "invalid_jump", "acw" };
+static int c19_kind(int from, int to) { return (c19_cyc[to] - c19_cyc[from]) & 3; }
+static int c19_delta(int from, int to) { int k = c19_kind(from, to); return k == C19_CW ? 1 : k == C19_ACW ? -1 : 0; }
+static int64_t c19_floordiv4(int64_t t) { return t >= 0 ? t / 4 : -((-t + 3) / 4); }
+static uint32_t c19_umod(int64_t v, int64_t m) { int64_t r = v % m; if (r < 0) r += m; return (uint32_t)r; }
+static uint32_t c19_circ(uint32_t a, uint32_t b, uint32_t m) { uint32_t d = (a + m - b) % m, e = (b + m - a) % m; return d < e ? d : e; }
 
-/* ------------------------------------------------------- violation classes */
+#define C19_OP_READ 4
+#define C19_NOPS 5
+#define C19_SCOPE_CLICKS 127		/* an 8-bit latch next to a live position can be extended unambiguously this far */
+#define C19_SCOPE_Q (4 * C19_SCOPE_CLICKS)
+#define C19_POS(s) ((uint16_t)(s)->r.internal_count)	/* the statement's internal position; judged by differences only */
 
-#define MAXCLASS 64
-static struct { char key[64]; uint64_t hits; } classes[MAXCLASS];
-static int nclasses;
-/* returns 1 if this is the first hit of the class (caller then reports it) */
-static int class_hit(const char *key)
-{
-	for (int i = 0; i < nclasses; i++) if (!strcmp(classes[i].key, key)) { classes[i].hits++; return 0; }
-	if (nclasses >= MAXCLASS) return 0;
-	snprintf(classes[nclasses].key, sizeof(classes[nclasses].key), "%s", key);
-	classes[nclasses++].hits = 1;
-	return 1;
-}
-
-/* ------------------------------------------------------------------ part 1 */
-
-static volatile int cur_last, cur_next, cur_next2; static volatile unsigned cur_int, cur_cnt;
-
-static void p1_fail(const char *clause, const char *detail, int last, unsigned internal, unsigned count, int next, int next2,
-		    const char *fmt, ...) __attribute__((format(printf, 8, 9)));
-static void p1_fail(const char *clause, const char *detail, int last, unsigned internal, unsigned count, int next, int next2,
-		    const char *fmt, ...)
-{
-	char sig[256], rep[256];
-	va_list ap; va_start(ap, fmt); char *m = vx_vfmt(fmt, ap); va_end(ap);
-	/* coarse: clause + what went wrong (root cause class). The smallest start point of the reporting partition is in
-	 * the message and the replay; partitions are (last,next) pairs, so the same class may be met by several workers. */
-	snprintf(sig, sizeof(sig), "C19/step|%s|%s", clause, detail);
-	snprintf(rep, sizeof(rep), "part=1\nlast=%d\ninternal=%u\ncount=%u\nnext=%d\nnext2=%d\n", last, internal, count, next, next2);
-	vx_violation(sig, rep, "%s: %s -- start {last_state=%d, internal_count=%u, count=%u}, decode(%d)%s", clause, m,
-		     last, internal, count, next, next2 >= 0 ? " then decode(next2), see replay" : "");
-	free(m);
-}
-
-/* check one decode step r0 --state--> r1 against the model; returns 1 on violation */
-static int p1_check_step(const rotenc_t *r0, rotenc_t *r1, int from, int to, int last, unsigned internal, unsigned count, int next, int next2)
-{
-	char d[96];
-	int want = m_delta(from, to);
-	int got = (int16_t)(uint16_t)(r1->internal_count - r0->internal_count);
-	if (got != want) {
-		snprintf(d, sizeof(d), "%s: position changed by %+d, must be %+d", kname[m_kind(from, to)], got, want);
-		p1_fail("position", d, last, internal, count, next, next2, "internal %u -> %u", r0->internal_count, r1->internal_count);
-		return 1;
-	}
-	unsigned clicks = ((uint16_t)(r0->internal_count + want)) >> 2;
-	uint8_t c = rotenc_count(r1);
-	uint16_t c14 = rotenc_count14(r1);
-	if (to == 0) {
-		if (c != (clicks & 0xff)) {
-			p1_fail("latch", "count is not the position in whole clicks after arriving at the detent", last, internal, count, next, next2, "rotenc_count=%u, position is %u clicks", c, clicks);
-			return 1;
-		}
-		if (c14 != (clicks & 0x3fff)) {
-			p1_fail("latch14", "count14 is not the position in whole clicks after arriving at the detent", last, internal, count, next, next2, "rotenc_count14=%u, position is %u clicks", c14, clicks & 0x3fff);
-			return 1;
-		}
-	} else if (c != rotenc_count((rotenc_t *)r0)) {
-		p1_fail("latch", "count changed away from the detent", last, internal, count, next, next2,
-			"rotenc_count %u -> %u on a decode of state %d", rotenc_count((rotenc_t *)r0), c, to);
-		return 1;
-	}
-	if ((c14 & 0xff) != c || c14 > 0x3fff) {
-		p1_fail("agree-low8", (c14 > 0x3fff) ? "count14 out of 14-bit range" : "low 8 bits of count14 differ from count",
-			last, internal, count, next, next2, "rotenc_count=%u rotenc_count14=%u", c, c14);
-		return 1;
-	}
-	return 0;
-}
-
-static uint64_t p1_unreachable_skipped, p1_cases, p1_prestates, p1_steps, p1_kind[4], p1_latches;
-static vx_set p1_obs;
-
-/* one start point + first step + all second steps; returns 1 on violation */
-static int p1_case(int last, unsigned internal, unsigned count, int next, int only_next2)
-{
-	/* scope: reachable decoder states only. While last_state is the detent state the latched count IS the current
-	 * position (it was written by the decode that stored last_state); any other combination cannot arise. */
-	if (last == 0 && count != ((internal >> 2) & 0xff)) { p1_unreachable_skipped++; return 0; }
-	rotenc_t r0 = { (uint8_t)last, (uint8_t)count, (uint16_t)internal }, r1 = r0;
-	rotenc_decode(&r1, (uint8_t)next);
-	p1_cases++; p1_steps++; p1_prestates += next == 0; p1_kind[m_kind(last, next)]++; p1_latches += next == 0;
-	if (p1_check_step(&r0, &r1, last, next, last, internal, count, next, -1)) return 1;
-	for (int n2 = 0; n2 < 4; n2++) {
-		if (only_next2 >= 0 && n2 != only_next2) continue;
-		rotenc_t r2 = r1;
-		cur_next2 = n2;
-		rotenc_decode(&r2, (uint8_t)n2);
-		p1_steps++; p1_kind[m_kind(next, n2)]++; p1_latches += n2 == 0;
-		if (p1_check_step(&r1, &r2, next, n2, last, internal, count, next, n2)) return 1;
-	}
-	return 0;
-}
-
-static const unsigned quick_counts[] = { 0, 1, 0x7f, 0x80, 0xfe, 0xff };
-#define NQC (sizeof(quick_counts) / sizeof(quick_counts[0]))
-
-static void part1(int last, int next)
-{
-	uint64_t bad = 0;
-	vx_hasher h;
-	cur_last = last; cur_next = next;
-	if (VX_TRY) {
-		for (unsigned internal = 0; internal < 65536 && bad < 4; internal++) {
-			cur_int = internal;
-			if (vx_thorough()) {
-				for (unsigned c = 0; c < 256 && bad < 4; c++) { cur_cnt = c; bad += (uint64_t)p1_case(last, internal, c, next, -1); }
-			} else {
-				/* the latched count is write-only for rotenc_decode: a handful of values + the two natural ones */
-				for (unsigned i = 0; i < NQC + 2 && bad < 4; i++) {
-					unsigned c = i < NQC ? quick_counts[i] :
-						     i == NQC ? ((internal >> 2) & 0xff) : (((internal >> 2) + 1) & 0xff);
-					cur_cnt = c; bad += (uint64_t)p1_case(last, internal, c, next, -1);
-				}
-			}
-			/* observation classes really seen: (transition kind, latch?, which wrap point the step crossed) */
-			int dl = m_delta(last, next);
-			unsigned after = (uint16_t)(internal + dl);
-			int wrap16 = (internal == 0xffff && after == 0) || (internal == 0 && after == 0xffff);
-			int wrap8 = dl && (internal >> 10) != (after >> 10);
-			vx_h_init(&h); vx_h_u64(&h, (uint64_t)last); vx_h_u64(&h, (uint64_t)next); vx_h_u64(&h, (uint64_t)wrap16); vx_h_u64(&h, (uint64_t)wrap8);
-			vx_h_u64(&h, after & 3);
-			vx_set_add(&p1_obs, vx_h_done(&h));
-			if (wrap16) vx_count("p1_steps_across_16bit_wrap", 1);
-			if (wrap8) vx_count("p1_steps_across_256click_boundary", 1);
-		}
-		VX_END;
-	} else {
-		VX_END;
-		char sig[128], rep[200];
-		snprintf(sig, sizeof(sig), "C19/step|fault|%d->%d|%s", last, next, vx_fault_msg);
-		snprintf(rep, sizeof(rep), "part=1\nlast=%d\ninternal=%u\ncount=%u\nnext=%d\nnext2=%d\n", cur_last, cur_int, cur_cnt, cur_next, cur_next2);
-		vx_violation(sig, rep, "fault in rotenc_decode/rotenc_count14: %s", vx_fault_msg);
-	}
-	if (bad >= 4) { vx_and("exhaustive", 0); vx_note("part 1 partition %d->%d stopped early after repeated violations", last, next); }
-}
-
-/* ------------------------------------------------------------------ part 2 */
-
-static struct live {
-	rotenc_t r;
+typedef struct {
+	rotenc_t r;		/* whole image is state: zeroed before initialisation so padding is defined */
 	int32_t T;		/* ghost: true position, quarter steps, never wraps */
 	int32_t L;		/* ghost: true latched position, clicks, never wraps */
 	uint8_t mlast;		/* model's idea of the previous state */
 	uint8_t valid;		/* no invalid two-bit jump in the history */
 	uint8_t pad[2];
-} G;
+} c19_sim;
 
-static int W;				/* drift window in clicks */
-static uint64_t p2_ops[4], p2_kind[4], p2_oneclick_checked, p2_oneclick_skipped;
-static uint64_t p2_wrap16_up, p2_wrap16_down, p2_wrap8_up, p2_wrap8_down;
-static int32_t p2_Tmin, p2_Tmax;
-static vx_set p2_obs, p2_pos;
-static vx_bfs B;
+static c19_sim c19_S;				/* THE live decoder + ghost; every step acts on it */
+static const rotenc_t c19_init = ROTENC_VAR_INIT;
+static size_t c19_libsz;
+#define C19_MAXDEPTH 8
+static uint8_t *c19_libstack;
 
-static void m_next(int op, int32_t *T, int32_t *L)
-{
-	*T = G.T + m_delta(G.mlast, op);
-	*L = op == 0 ? (int32_t)floordiv4(*T) : G.L;
-}
-static int op_enabled(int op)
-{
-	int32_t T, L; m_next(op, &T, &L);
-	int32_t d = T - 4 * L;
-	return d >= -4 * W && d <= 4 * W;
-}
-static void op_describe(int op, vx_sb *sb) { vx_sb_printf(sb, "%d", op); }
-static void op_canon(vx_hasher *h)
-{
-	vx_h_u64(h, ((uint64_t)G.r.last_state << 32) | ((uint64_t)G.r.count << 16) | G.r.internal_count);
-	vx_h_u64(h, ((uint64_t)umod(G.T, 65536) << 32) | ((uint64_t)G.mlast << 8) | G.valid);
-	vx_h_u64(h, (uint64_t)(int64_t)(G.T - 4 * G.L));
-}
+/* operation log of the live line since reset: the replay text of whatever goes wrong */
+#define C19_LOGCAP (1u << 20)
+static char *c19_log; static size_t c19_loglen; static int c19_logging = 1, c19_log_overflow;
 
-/* "1320" style history, shortened deterministically when long */
-static void short_history(const char *full, char *out, size_t n)
+typedef struct { c19_sim s; size_t loglen; int depth; } c19_mark;
+static void c19_save(c19_mark *m, int depth)
 {
-	size_t l = strlen(full);
-	if (l <= 48) { snprintf(out, n, "reset,%s", full); return; }
-	vx_hasher h; vx_h_init(&h); vx_h_bytes(&h, full, l); vx_h128 k = vx_h_done(&h);
-	snprintf(out, n, "reset,%.24s...%s(len=%zu,id=%08x)", full, full + l - 24, l, (unsigned)(k.a & 0xffffffffu));
+	memcpy(&m->s, &c19_S, sizeof(c19_S)); m->loglen = c19_loglen; m->depth = depth;
+	if (c19_libsz) vx_lib_save(c19_libstack + (size_t)depth * c19_libsz);
+}
+static void c19_back(const c19_mark *m)
+{
+	memcpy(&c19_S, &m->s, sizeof(c19_S)); c19_loglen = m->loglen;
+	if (c19_libsz) vx_lib_restore(c19_libstack + (size_t)m->depth * c19_libsz);
+}
+static void c19_reset(void)
+{
+	memset(&c19_S, 0, sizeof(c19_S));
+	memcpy(&c19_S.r, &c19_init, sizeof(rotenc_t));
+	c19_S.valid = 1;
+	c19_loglen = 0;
+	vx_lib_reset();
 }
 
-/* report a violation of the current BFS transition, first hit of its class only */
+/* ------------------------------------------------------- families, counters */
+
+typedef struct { const char *name; uint64_t cases, decodes, reads; } c19_famstat;
+static c19_famstat c19_fs[] = { { "seq", 0, 0, 0 }, { "step", 0, 0, 0 }, { "walk", 0, 0, 0 }, { "drift", 0, 0, 0 },
+				{ "gap", 0, 0, 0 }, { "rest", 0, 0, 0 }, { "dwell", 0, 0, 0 } };
+enum { F_SEQ, F_STEP, F_WALK, F_DRIFT, F_GAP, F_REST, F_DWELL, F_N };
+static c19_famstat *c19_cur = &c19_fs[F_SEQ];
+static int c19_quiet;				/* steps repeated by a worker that does not own them are not counted */
+static uint64_t c19_nfail;			/* oracle failures so far (reported or folded into a class) */
+static uint64_t c19_kinds[4], c19_detents, c19_oneclick_checked, c19_oneclick_skipped, c19_c14_judged, c19_c14_out_of_scope;
+static uint64_t c19_wrap16_up, c19_wrap16_down, c19_wrap8_up, c19_wrap8_down;
+static int32_t c19_Tmin, c19_Tmax;
+static int c19_obs_on; static vx_set c19_obs, c19_posset;
+static int c19_stop;				/* this worker gives up (repeated hangs / deadline) */
+
+#define C19_MAXCLASS 96
+static struct { char key[80]; uint64_t hits; } c19_classes[C19_MAXCLASS];
+static int c19_nclasses;
+/* returns 1 if this is the first hit of the class (caller then reports it) */
+static int c19_class_hit(const char *key)
+{
+	for (int i = 0; i < c19_nclasses; i++) if (!strcmp(c19_classes[i].key, key)) { c19_classes[i].hits++; return 0; }
+	if (c19_nclasses >= C19_MAXCLASS) return 0;
+	snprintf(c19_classes[c19_nclasses].key, sizeof(c19_classes[c19_nclasses].key), "%s", key);
+	c19_classes[c19_nclasses++].hits = 1;
+	return 1;
+}
+
+static void (*c19_reporter)(const char *cls, const char *detail, const char *msg);
 __attribute__((format(printf, 3, 4)))
-static void p2_fail(const char *cls, const char *detail, const char *fmt, ...)
+static void c19_fail(const char *cls, const char *detail, const char *fmt, ...)
 {
-	if (!class_hit(cls)) return;
-	vx_sb hist = {0}, rep = {0}, sig = {0}, rp2 = {0};
-	char sh[160];
 	va_list ap; va_start(ap, fmt); char *m = vx_vfmt(fmt, ap); va_end(ap);
-	/* vx_bfs_history() keeps at most 4095 operations; histories here can be ~33000 long */
-	static uint32_t ops[70000];
-	int n = vx_store_trace(&B.st, B.cur, ops, 69999);
-	ops[n++] = (uint32_t)B.cur_op;
-	vx_sb_printf(&rep, "config=%s\nops=", B.name);
-	for (int i = 0; i < n; i++) { vx_sb_printf(&hist, "%u", ops[i]); vx_sb_printf(&rep, "%s%u", i ? " " : "", ops[i]); }
-	vx_sb_printf(&rep, "\n");
-	short_history(hist.s, sh, sizeof(sh));
-	vx_sb_printf(&sig, "C19/seq|%s|%s|min:decode %s", cls, detail, sh);
-	vx_sb_printf(&rp2, "part=2\n%s", rep.s);
-	vx_violation(sig.s, rp2.s, "%s: %s -- shortest history from reset: states %s; ghost T=%d quarter steps, latched L=%d clicks; "
-		     "rotenc_t={last_state=%u,count=%u,internal_count=%u}", cls, m, sh, G.T, G.L, G.r.last_state, G.r.count, G.r.internal_count);
-	free(m); free(hist.s); free(rep.s); free(sig.s); free(rp2.s);
+	c19_nfail++;
+	c19_reporter(cls, detail, m);
+	free(m);
 }
 
-static int op_apply(int op)
+static void c19_image(char *out, size_t n)
 {
-	uint8_t c; uint16_t c14;
-	int32_t T0 = G.T;
-	p2_ops[op]++;
-	if (VX_TRY) {
-		rotenc_decode(&G.r, (uint8_t)op);
-		c = rotenc_count(&G.r);
-		c14 = rotenc_count14(&G.r);
-		VX_END;
-	} else {
-		VX_END;
-		p2_fail("fault", "fault", "%s", vx_fault_msg);
+	const uint8_t *b = (const uint8_t *)&c19_S.r; size_t k = 0;
+	for (size_t i = 0; i < sizeof(rotenc_t) && k + 3 < n; i++) k += (size_t)snprintf(out + k, n - k, "%02x", b[i]);
+	out[k < n ? k : n - 1] = 0;
+}
+
+/* "1r32r0" style history, shortened deterministically when long */
+static void c19_short_history(const char *full, size_t l, char *out, size_t n)
+{
+	if (l <= 48) { snprintf(out, n, "reset,%.*s", (int)l, full); return; }
+	vx_hasher h; vx_h_init(&h); vx_h_bytes(&h, full, l); vx_h128 k = vx_h_done(&h);
+	snprintf(out, n, "reset,%.24s...%.24s(len=%zu,id=%08x)", full, full + l - 24, l, (unsigned)(k.a & 0xffffffffu));
+}
+
+/* ------------------------------------------------------------ the step */
+
+/* apply one operation to the real decoder and to the ghost, run the oracle. Returns 1 when implementation and model have
+ * parted (wrong position): the line cannot be continued. Read-only oracles report but return 0. */
+static int c19_arm_calls;	/* search: fault capture is armed around the library calls only (the harness's own set and store
+				 * operations can take longer than a watchdog period on a busy machine); families arm a whole case */
+static int c19_step(int op)
+{
+	c19_sim *s = &c19_S;
+	char d[96];
+	vx_opseq++;					/* the watchdog must only ever see a hanging library call */
+	if (c19_logging) {
+		if (c19_loglen + 1 < C19_LOGCAP) c19_log[c19_loglen++] = (char)(op == C19_OP_READ ? 'r' : '0' + op);
+		else c19_log_overflow = 1;
+	}
+	if (op == C19_OP_READ) {
+		uint16_t p0 = C19_POS(s), p1;
+		unsigned c0, c14, c;
+		if (!c19_arm_calls) { c0 = rotenc_count(&s->r); c14 = rotenc_count14(&s->r); c = rotenc_count(&s->r); }
+		else if (VX_TRY) { c0 = rotenc_count(&s->r); c14 = rotenc_count14(&s->r); c = rotenc_count(&s->r); VX_END; }
+		else { VX_END; c19_fail("fault", "fault", "%s", vx_fault_msg); return 1; }
+		p1 = C19_POS(s);
+		if (!c19_quiet) c19_cur->reads++;
+		if (c19_obs_on) {
+			vx_hasher h; vx_h_init(&h);
+			vx_h_u64(&h, ((uint64_t)C19_OP_READ << 48) | ((uint64_t)p1 << 32) | ((uint64_t)(c & 0xffff) << 16) | (c14 & 0xffff));
+			vx_set_add(&c19_obs, vx_h_done(&h));
+		}
+		if (p1 != p0) {
+			snprintf(d, sizeof(d), "position moved by %+d", (int)(int16_t)(uint16_t)(p1 - p0));
+			c19_fail("read:moves-position", d, "rotenc_count14 is a reading, the position must be unchanged");
+			return 1;
+		}
+		if (c != c0) c19_fail("read:changes-count", "rotenc_count differs before and after rotenc_count14", "rotenc_count %u -> %u", c0, c);
+		if (c14 > 0x3fff) {
+			/* not a value modulo 2^14 at all: nothing else about it is judged */
+			c19_fail("agree-low8", "count14 out of 14-bit range", "rotenc_count=%u rotenc_count14=%u", c, c14);
+			return 0;
+		}
+		uint32_t w14 = c19_umod(s->L, 16384);
+		int32_t drift = s->T - 4 * s->L;
+		if (drift >= -C19_SCOPE_Q && drift <= C19_SCOPE_Q) {
+			if (!c19_quiet) c19_c14_judged++;
+			if (c14 != w14) {
+				int dd = (int)c19_umod((int64_t)c14 - (int64_t)w14, 16384);
+				if (dd > 8192) dd -= 16384;
+				if ((dd == 256 || dd == -256) && c == c19_umod(s->L, 256))
+					/* one root cause: high bits follow the live position while the low byte is latched */
+					c19_fail("count14:high-bits-not-latched", "got-want=+-256 (mod 2^14), low byte right",
+						 "rotenc_count14=%u, latched position mod 2^14=%u (rotenc_count=%u), live clicks=%u", c14, w14, c,
+						 c19_umod(c19_floordiv4(s->T), 16384));
+				else {
+					snprintf(d, sizeof(d), "got-want=%d (mod 2^14)", dd);
+					c19_fail(s->mlast == 0 ? "count14:at-detent" : "count14:off-detent", d,
+						 "rotenc_count14=%u, latched position mod 2^14=%u", c14, w14);
+				}
+			}
+		} else if (!c19_quiet) c19_c14_out_of_scope++;
+		if ((c14 & 0xff) != c)
+			c19_fail("agree-low8", "low 8 bits differ", "rotenc_count=%u rotenc_count14=%u", c, c14);
+		if (s->valid) {
+			uint32_t d14 = c19_circ(4u * (c14 & 0x3fff), c19_umod(s->T, 65536), 65536);
+			if (d14 > 4)
+				c19_fail("one-click:count14", "no invalid jump in history",
+					 "rotenc_count14=%u is %u quarter steps from the true position %d/4 (mod 2^14 clicks)", c14, d14, s->T);
+		}
+		return 0;
+	}
+
+	int kind = c19_kind(s->mlast, op), want = kind == C19_CW ? 1 : kind == C19_ACW ? -1 : 0;
+	uint16_t p0 = C19_POS(s), p1;
+	unsigned c;
+	if (!c19_arm_calls) { rotenc_decode(&s->r, (uint8_t)op); c = rotenc_count(&s->r); }
+	else if (VX_TRY) { rotenc_decode(&s->r, (uint8_t)op); c = rotenc_count(&s->r); VX_END; }
+	else { VX_END; c19_fail("fault", "fault", "%s", vx_fault_msg); return 1; }
+	p1 = C19_POS(s);
+	int got = (int)(int16_t)(uint16_t)(p1 - p0);
+	int32_t T0 = s->T, T = T0 + want;
+	s->T = T; if (op == 0) s->L = (int32_t)c19_floordiv4(T);
+	s->mlast = (uint8_t)op;
+	if (kind == C19_JUMP) s->valid = 0;
+	if (!c19_quiet) {
+		c19_cur->decodes++; c19_kinds[kind]++; c19_detents += op == 0;
+		if (T < c19_Tmin) c19_Tmin = T;
+		if (T > c19_Tmax) c19_Tmax = T;
+		if (T != T0) {
+			int64_t a = c19_floordiv4(T0), b = c19_floordiv4(T);
+			if (c19_umod(T0, 65536) == 65535 && c19_umod(T, 65536) == 0) c19_wrap16_up++;
+			if (c19_umod(T0, 65536) == 0 && c19_umod(T, 65536) == 65535) c19_wrap16_down++;
+			if (b > a && c19_umod(b, 256) == 0) c19_wrap8_up++;
+			if (b < a && c19_umod(a, 256) == 0) c19_wrap8_down++;
+		}
+	}
+	if (c19_obs_on) {
+		vx_hasher h; vx_h_init(&h);
+		vx_h_u64(&h, ((uint64_t)op << 48) | ((uint64_t)p1 << 32) | ((uint64_t)(c & 0xffff) << 16) | 0xffff);
+		vx_set_add(&c19_obs, vx_h_done(&h));
+		vx_h_init(&h); vx_h_u64(&h, c19_umod(T, 65536)); vx_set_add(&c19_posset, vx_h_done(&h));
+	}
+	if (got != want) {
+		char cls[64];
+		snprintf(cls, sizeof(cls), "position:%s", c19_kname[kind]);
+		snprintf(d, sizeof(d), "%s step: position moved by %+d, must be %+d", c19_kname[kind], got, want);
+		c19_fail(cls, d, "internal position %u -> %u (mod 2^16) on decode(%d)", p0, p1, op);
 		return 1;
 	}
-	int kind = m_kind(G.mlast, op);
-	p2_kind[kind]++;
-	int32_t T, L; m_next(op, &T, &L);
-	G.T = T; G.L = L; G.mlast = (uint8_t)op;
-	if (kind == K_JUMP) G.valid = 0;
-	if (T < p2_Tmin) p2_Tmin = T;
-	if (T > p2_Tmax) p2_Tmax = T;
-	if (T != T0) {
-		int64_t a = floordiv4(T0), b = floordiv4(T);
-		if (umod(T0, 65536) == 65535 && umod(T, 65536) == 0) p2_wrap16_up++;
-		if (umod(T0, 65536) == 0 && umod(T, 65536) == 65535) p2_wrap16_down++;
-		if (b > a && umod(b, 256) == 0) p2_wrap8_up++;
-		if (b < a && umod(a, 256) == 0) p2_wrap8_down++;
+	uint32_t w8 = c19_umod(s->L, 256);
+	if (c > 255) {
+		snprintf(d, sizeof(d), "rotenc_count=%u", c);
+		c19_fail("count:range", "rotenc_count is not a value modulo 256", "%s, latched position mod 256=%u", d, w8);
 	}
-	vx_hasher h; vx_h_init(&h);
-	vx_h_u64(&h, ((uint64_t)op << 48) | ((uint64_t)G.r.internal_count << 32) | ((uint64_t)c << 16) | c14);
-	vx_set_add(&p2_obs, vx_h_done(&h));
-	vx_h_init(&h); vx_h_u64(&h, umod(T, 65536)); vx_set_add(&p2_pos, vx_h_done(&h));
-
-	/* --- oracle --- */
-	char d[96];
-	if (G.r.internal_count != umod(T, 65536)) {
-		snprintf(d, sizeof(d), "%s step: internal-true=%d", kname[kind], (int)(int16_t)(uint16_t)(G.r.internal_count - umod(T, 65536)));
-		char cls[64]; snprintf(cls, sizeof(cls), "position:%s", kname[kind]);
-		p2_fail(cls, d, "internal_count=%u, true position mod 2^16=%u", G.r.internal_count, umod(T, 65536));
-		return 1;	/* model and implementation have parted: do not expand */
-	}
-	uint32_t w8 = umod(L, 256), w14 = umod(L, 16384);
 	if (c != w8) {
 		snprintf(d, sizeof(d), "got-want=%d", (int)c - (int)w8);
-		p2_fail(op == 0 ? "count:at-detent" : "count:off-detent", d, "rotenc_count=%u, latched position mod 256=%u", c, w8);
+		c19_fail(op == 0 ? "count:at-detent" : "count:off-detent", d, "rotenc_count=%u, latched position mod 256=%u", c, w8);
 	}
-	if (c14 != w14) {
-		int dd = (int)umod((int64_t)c14 - (int64_t)w14, 16384);
-		if (dd > 8192) dd -= 16384;
-		if ((dd == 256 || dd == -256) && c == w8)
-			/* one root cause: high bits follow the live position while the low byte is latched */
-			p2_fail("count14:high-bits-not-latched", "got-want=+-256 (mod 2^14), low byte right",
-				"rotenc_count14=%u, latched position mod 2^14=%u (rotenc_count=%u), live clicks=%u", c14, w14, c, umod(floordiv4(T), 16384));
-		else {
-			snprintf(d, sizeof(d), "got-want=%d (mod 2^14)", dd);
-			p2_fail(op == 0 ? "count14:at-detent" : "count14:off-detent", d, "rotenc_count14=%u, latched position mod 2^14=%u", c14, w14);
-		}
-	}
-	if ((c14 & 0xff) != c || c14 > 0x3fff)
-		p2_fail("agree-low8", c14 > 0x3fff ? "count14 out of 14-bit range" : "low 8 bits differ",
-			"rotenc_count=%u rotenc_count14=%u", c, c14);
-	if (G.valid) {
-		p2_oneclick_checked++;
-		uint32_t d8 = circ(4u * c, umod(T, 1024), 1024), d14 = circ(4u * (c14 & 0x3fff), umod(T, 65536), 65536);
-		if (d8 > 4) {
-			snprintf(d, sizeof(d), "off by %u quarter steps", d8);
-			p2_fail("one-click:count", "no invalid jump in history", "rotenc_count=%u is %u quarter steps from the true position %d/4 (mod 256 clicks)", c, d8, T);
-		}
-		if (d14 > 4) {
-			snprintf(d, sizeof(d), "off by %u quarter steps", d14);
-			p2_fail("one-click:count14", "no invalid jump in history", "rotenc_count14=%u is %u quarter steps from the true position %d/4 (mod 2^14 clicks)", c14, d14, T);
-		}
-	} else p2_oneclick_skipped++;
+	if (s->valid) {
+		if (!c19_quiet) c19_oneclick_checked++;
+		uint32_t d8 = c19_circ(4u * (c & 0xff), c19_umod(T, 1024), 1024);
+		if (d8 > 4)
+			c19_fail("one-click:count", "no invalid jump in history",
+				 "rotenc_count=%u is %u quarter steps from the true position %d/4 (mod 256 clicks)", c, d8, T);
+	} else if (!c19_quiet) c19_oneclick_skipped++;
 	return 0;
 }
 
-static void p2_setup(int w)
+/* ------------------------------------------------- families: report, cases */
+
+static void c19_fam_report(const char *cls, const char *detail, const char *msg)
 {
-	static char name[16];
-	memset(&G, 0, sizeof(G));
-	rotenc_t init = ROTENC_VAR_INIT;
-	G.r = init; G.valid = 1;
-	W = w;
-	snprintf(name, sizeof(name), "W%d", w);
-	memset(&B, 0, sizeof(B));
-	B.live = &G; B.size = sizeof(G); B.nops = 4; B.enabled = op_enabled; B.apply = op_apply;
-	B.canon = op_canon; B.describe = op_describe; B.name = name;
+	char key[80], sh[160], img[80];
+	snprintf(key, sizeof(key), "%s|%s", c19_cur->name, cls);
+	if (!c19_class_hit(key)) return;
+	vx_sb sig = {0}, rep = {0};
+	c19_short_history(c19_log, c19_loglen, sh, sizeof(sh));
+	c19_image(img, sizeof(img));
+	vx_sb_printf(&sig, "C19/%s|%s|%s", c19_cur->name, cls, detail);
+	vx_sb_printf(&rep, "part=3\nfam=%s\nops=%.*s\n", c19_cur->name, (int)c19_loglen, c19_log);
+	vx_violation(sig.s, rep.s, "%s: %s (%s) -- family %s, complete history from reset (0..3 = decode that state, r = read count14): %s; "
+		     "ghost T=%d quarter steps, latched L=%d clicks; rotenc_t image=%s", cls, msg, detail, c19_cur->name, sh, c19_S.T, c19_S.L, img);
+	free(sig.s); free(rep.s);
 }
 
-static void part2(int w)
+static uint64_t c19_bad;			/* violating cases in the current job */
+static uint64_t c19_ncases_all;
+
+/* run one case under fault capture: 0 fine, 1 an oracle failed, 2 fault (reported; the live state is undefined) */
+static int c19_case(void (*fn)(const void *), const void *arg)
 {
-	p2_setup(w);
-	vx_set_init(&p2_obs, 20); vx_set_init(&p2_pos, 18);
-	vx_bfs_run(&B);
-	vx_count("states", B.states); vx_count("transitions", B.transitions); vx_count("traces", B.transitions);
-	vx_count("distinct", p2_obs.n);
-	vx_count("p2_states", B.states); vx_count("p2_transitions", B.transitions);
-	vx_count("p2_distinct_observations_op_internal_count_count14", p2_obs.n);
-	vx_count("p2_distinct_true_positions_mod_65536", p2_pos.n);
-	vx_count("p2_scope_guard_disabled_steps", B.disabled);
-	vx_count("p2_drift_window_clicks", (uint64_t)w);
-	vx_and("exhaustive", B.fixpoint && !B.capped);
-	vx_and("p2_fixpoint", B.fixpoint && !B.capped);
-	vx_max("p2_bfs_depth", (uint64_t)B.depth_done);
-	for (int i = 0; i < 4; i++) {
-		char nm[64];
-		snprintf(nm, sizeof(nm), "p2_op_decode_%d", i); vx_count(nm, p2_ops[i]);
-		snprintf(nm, sizeof(nm), "p2_kind_%s", kname[i]); vx_count(nm, p2_kind[i]);
+	uint64_t f0 = c19_nfail;
+	if (!c19_quiet) c19_cur->cases++;
+	if ((++c19_ncases_all & 255) == 0 && vx_deadline_passed()) {
+		c19_stop = 1; vx_and("exhaustive", 0); vx_note("scripted families cut short by the deadline");
 	}
-	vx_count("p2_oneclick_checked", p2_oneclick_checked);
-	vx_count("p2_oneclick_skipped_after_invalid_jump", p2_oneclick_skipped);
-	vx_count("p2_steps_across_16bit_wrap_up", p2_wrap16_up); vx_count("p2_steps_across_16bit_wrap_down", p2_wrap16_down);
-	vx_count("p2_steps_across_256click_boundary_up", p2_wrap8_up); vx_count("p2_steps_across_256click_boundary_down", p2_wrap8_down);
-	vx_count("p2_ghost_T_min_negated", (uint64_t)(-(int64_t)p2_Tmin)); vx_count("p2_ghost_T_max", (uint64_t)p2_Tmax);
-	if (B.capped) vx_note("part 2 stopped before the fixpoint (deadline / state cap / violation cap): states=%llu depth completed=%d",
-			      (unsigned long long)B.states, B.depth_done);
+	if (VX_TRY) { fn(arg); VX_END; }
+	else {
+		VX_END;
+		c19_fail("fault", vx_fault_msg, "fault in rotenc_decode / rotenc_count14: %s", vx_fault_msg);
+		vx_and("exhaustive", 0);
+		c19_bad++;
+		if (vx_hangs_seen >= 2) { c19_stop = 1; vx_note("worker stopped after repeated hangs of the library"); }
+		return 2;
+	}
+	if (c19_nfail != f0) { c19_bad++; return 1; }
+	return 0;
+}
+/* a job (path / walker share / prefix group) that keeps failing is abandoned */
+static int c19_giveup(void)
+{
+	if (c19_stop) return 1;
+	if (c19_bad >= 4 || vx_too_many_violations()) { vx_and("exhaustive", 0); vx_note("a family job stopped early after repeated violations"); return 1; }
+	return 0;
+}
+
+static int c19_mine_fam(uint64_t job)
+{
+	int n = vx_args.nworkers;
+	if (n <= 1) return 1;
+	int bw = (int)((16 + vx_args.seed) % (uint64_t)n);	/* the worker that runs the search */
+	return vx_args.worker == (bw + 1 + (int)(job % (uint64_t)(n - 1))) % n;
+}
+
+/* ---------------------------------------------------------------- step family */
+
+#define C19_SCRIPTMAX 140000
+static uint8_t c19_script[C19_SCRIPTMAX]; static int c19_nscript;
+static void c19_sc(int op) { if (c19_nscript < C19_SCRIPTMAX) c19_script[c19_nscript++] = (uint8_t)op; }
+static int c19_sc_rotate(int cur, int dir, int steps) { for (int i = 0; i < steps; i++) { cur = dir > 0 ? c19_cwnext[cur] : c19_acwnext[cur]; c19_sc(cur); } return cur; }
+
+static uint64_t c19_step_starts;
+static vx_set c19_step_obs;
+
+/* next decode of the path (followed by a read), then from the state reached every next state and every second next one */
+static int c19_main_ok;
+static void c19_step_case(const void *arg)
+{
+	int op = *(const int *)arg;
+	uint64_t f0 = c19_nfail;
+	c19_mark m0, m1;
+	c19_main_ok = 0;
+	if (op >= 0) { if (c19_step(op)) return; c19_step(C19_OP_READ); if (c19_nfail != f0) return; }
+	c19_main_ok = 1;			/* whatever fails from here on fails on a copy */
+	c19_save(&m0, 1);
+	for (int n1 = 0; n1 < 4; n1++) {
+		if (!c19_step(n1)) {
+			c19_step(C19_OP_READ);
+			c19_save(&m1, 2);
+			for (int n2 = 0; n2 < 4; n2++) {
+				if (!c19_step(n2)) c19_step(C19_OP_READ);
+				c19_back(&m1);
+			}
+		}
+		c19_back(&m0);
+	}
+}
+
+/* kind 0: plain rotation, phase 0 / 2; kind 1: rotation to click c, then laps that never visit the detent */
+static void c19_step_path(int kind, int c, int dir, int phase)
+{
+	int cur = 0;
+	c19_nscript = 0;
+	if (kind == 0) {
+		if (phase) { c19_sc(3); cur = 3; }
+		c19_sc_rotate(cur, dir, 65536 + 8);
+	} else {
+		if (c < 128) c19_sc_rotate(0, +1, 4 * c); else c19_sc_rotate(0, -1, 4 * (256 - c));
+		c19_sc(3);
+		for (int lap = 0; lap < 32768 + 2; lap++) {
+			if (dir > 0) { c19_sc(2); c19_sc(1); c19_sc(3); }
+			else { c19_sc(1); c19_sc(2); c19_sc(3); }
+		}
+	}
+	c19_cur = &c19_fs[F_STEP];
+	c19_bad = 0;
+	c19_reset();
+	int ok = 1;
+	for (int i = -1; i < c19_nscript && ok && !c19_giveup(); i++) {
+		int op = i < 0 ? -1 : c19_script[i];
+		int r = c19_case(c19_step_case, &op);
+		c19_step_starts++;
+		/* a failure inside the probes leaves the main line intact (it was restored); a fault or a failure on the main line ends the path */
+		if (r == 2 || !c19_main_ok) ok = 0;
+		if ((i & 1023) == 0) {
+			vx_hasher h; vx_h_init(&h);
+			vx_h_u64(&h, ((uint64_t)c19_S.mlast << 40) | ((uint64_t)c19_umod(c19_S.L, 256) << 16) | (c19_umod(c19_S.T, 65536) >> 10));
+			vx_set_add(&c19_step_obs, vx_h_done(&h));
+		}
+	}
+	if (!ok) { vx_and("exhaustive", 0); vx_note("step family: a path was abandoned before its end (violation or fault on the main line)"); }
+	else if (c19_giveup()) vx_and("exhaustive", 0);	/* deadline / repeated violations: c19_giveup and c19_case have said why */
+}
+
+/* ---------------------------------------------------------------- walk family */
+
+static const uint8_t c19_laps[6][3] = { { 3, 2, 1 }, { 3, 1, 2 }, { 1, 3, 2 }, { 2, 3, 1 }, { 1, 2, 3 }, { 2, 1, 3 } };
+static int c19_walker_reads;			/* does the current walker read count14 on its main line */
+static uint64_t c19_drift_max_q;
+
+/* main line reads after every decode; a never-reading line reads twice on a throw-away copy instead */
+static int c19_step_observed(int op, int depth)
+{
+	if (c19_step(op)) return 1;
+	if (c19_walker_reads) { c19_step(C19_OP_READ); return 0; }
+	c19_mark m; c19_save(&m, depth);
+	if (!c19_step(C19_OP_READ)) c19_step(C19_OP_READ);
+	c19_back(&m);
+	return 0;
+}
+
+static void c19_drift_case(const void *arg)
+{
+	const uint8_t *lap = arg;
+	for (int i = 0; i < 3 * 300; i++) {
+		int op = lap[i % 3];
+		int32_t T = c19_S.T + c19_delta(c19_S.mlast, op), dq = T - 4 * c19_S.L;
+		if (dq < -C19_SCOPE_Q || dq > C19_SCOPE_Q) break;	/* scope: the drift stays within 127 clicks */
+		uint64_t f0 = c19_nfail;
+		if (c19_step_observed(op, 2) || c19_nfail != f0) return;
+		if ((uint64_t)(dq < 0 ? -dq : dq) > c19_drift_max_q) c19_drift_max_q = (uint64_t)(dq < 0 ? -dq : dq);
+	}
+}
+static void c19_gap_case(const void *arg)
+{
+	int dir = *(const int *)arg, cur = 0, keep = c19_walker_reads;
+	c19_walker_reads = 0;					/* no read on the main line, two on a copy at every step */
+	for (int i = 0; i < 4 * 300; i++) {
+		cur = dir > 0 ? c19_cwnext[cur] : c19_acwnext[cur];
+		uint64_t f0 = c19_nfail;
+		if (c19_step_observed(cur, 2) || c19_nfail != f0) break;
+	}
+	c19_walker_reads = keep;
+}
+static void c19_rest_case(const void *arg)
+{
+	int s = *(const int *)arg;
+	c19_mark m;
+	for (int n = 0; n <= 300; n++) {			/* n = 0: the step to s, then 300 identical polls */
+		uint64_t f0 = c19_nfail;
+		if (c19_step_observed(s, 2) || c19_nfail != f0) return;
+		c19_save(&m, 2);
+		for (int t = 0; t < 4; t++) {
+			if (!c19_step(t)) c19_step(C19_OP_READ);
+			c19_back(&m);
+		}
+		if (c19_nfail != f0) return;
+	}
+}
+
+static void c19_walk_segment(const void *arg)
+{
+	const int *a = arg;					/* dir, steps, one decode before them (-1: none) */
+	uint64_t f0 = c19_nfail;
+	if (a[2] >= 0 && (c19_step_observed(a[2], 1) || c19_nfail != f0)) return;
+	int cur = c19_S.mlast;
+	for (int i = 0; i < a[1]; i++) {
+		cur = a[0] > 0 ? c19_cwnext[cur] : c19_acwnext[cur];
+		if (c19_step_observed(cur, 1) || c19_nfail != f0) return;
+	}
+}
+
+/* is the click b (mod 16384) a base of the dense set (drift) / of the sparse set (gap, rest) in this tier */
+static int c19_base_dense(unsigned b)
+{
+	if (vx_thorough()) return 1;
+	unsigned d128 = b % 128; if (d128 > 64) d128 = 128 - d128;
+	if (d128 <= 2) return 1;
+	/* every offset -128..127 around the 14/16-bit wrap, the sign bit of the 8-bit count, the first and the last 8-bit wrap and
+	 * the sign bit of 14 bits */
+	static const unsigned full[] = { 0, 128, 256, 8192, 16128 };
+	for (unsigned i = 0; i < sizeof(full) / sizeof(full[0]); i++) {
+		unsigned d = (b + 16384 - full[i]) % 16384;
+		if (d < 128 || d >= 16384 - 128) return 1;
+	}
+	return 0;
+}
+static int c19_base_sparse(unsigned b)
+{
+	unsigned d128 = b % 128; if (d128 > 64) d128 = 128 - d128;
+	return d128 <= (vx_thorough() ? 2u : 1u);
+}
+
+#define C19_WALK_SPLIT 4
+/* walker w = direction x phase x reading habit; `share` selects which of its bases this job works on (share 0 also owns
+ * the counts of the main line, which every share has to walk) */
+static void c19_walker(int w, int share)
+{
+	int dir = (w & 1) ? -1 : +1, phase = (w & 2) ? 2 : 0, reads = (w & 4) ? 0 : 1;
+	int owner = share == 0;
+	c19_mark base;
+	c19_bad = 0;
+	c19_reset();
+	for (int k = 0; k <= 16384 + 3 && !c19_giveup(); k++) {
+		/* k = number of arrivals at the detent so far. Phase 2: an invalid jump 0 -> 3 first, the first arrival is then two
+		 * quarter steps away and every detent sits on a position that is 2 mod 4 */
+		int seg[3] = { dir, k == 0 ? 0 : (phase && k == 1) ? 2 : 4, (k == 0 && phase) ? 3 : -1 };
+		if (seg[1] || seg[2] >= 0) {
+			c19_cur = &c19_fs[F_WALK]; c19_quiet = !owner; c19_walker_reads = reads;
+			int r = c19_case(c19_walk_segment, seg);
+			c19_quiet = 0;
+			if (r) { vx_and("exhaustive", 0); vx_note("walk family: a walker was abandoned before its end (violation or fault on the main line)"); return; }
+		}
+		if (c19_S.mlast != 0) continue;			/* not at the detent yet */
+		if ((k % C19_WALK_SPLIT) != share) continue;
+		unsigned b = c19_umod(c19_S.L, 16384);
+		int dense = c19_base_dense(b), sparse = c19_base_sparse(b);
+		if (!dense && !sparse) continue;
+		c19_save(&base, 0);
+		if (dense) {
+			c19_cur = &c19_fs[F_DRIFT];
+			for (int l = 0; l < 6 && !c19_giveup(); l++) {
+				c19_walker_reads = reads; c19_case(c19_drift_case, c19_laps[l]);
+				if (w == 0 && share == 0 && k == 4 && l == 0 && vx_want_sample())
+					vx_sample("drift: walker cw / phase 0 / reading after every decode, base click %u, laps %d,%d,%d until 127 clicks "
+						  "from the latch, count14 against the ghost latch after each decode: reset,%.16s...%.12s(len=%d), ends with "
+						  "position %d quarter steps, latch %d clicks", b, c19_laps[l][0], c19_laps[l][1], c19_laps[l][2], c19_log,
+						  c19_log + (c19_loglen > 12 ? c19_loglen - 12 : 0), (int)c19_loglen, c19_S.T, c19_S.L);
+				c19_back(&base);
+			}
+		}
+		if (sparse) {
+			if (reads) {
+				c19_cur = &c19_fs[F_GAP];
+				for (int d = -1; d <= 1 && !c19_giveup(); d += 2) {
+					c19_walker_reads = reads; c19_case(c19_gap_case, &d);
+					if (w == 0 && share == 0 && k == 0 && d == 1 && vx_want_sample())
+						vx_sample("gap: base click %u, 300 clicks clockwise without reading count14 on the main line, read twice on a copy "
+							  "after every decode: reset,%.16s...(len=%d)", b, c19_log, (int)c19_loglen);
+					c19_back(&base);
+				}
+			}
+			c19_cur = &c19_fs[F_REST];
+			for (int s = 0; s < 4 && !c19_giveup(); s++) {
+				c19_walker_reads = reads; c19_case(c19_rest_case, &s);
+				if (w == 0 && share == 0 && k == 0 && s == 3 && vx_want_sample())
+					vx_sample("rest: base click %u, state %d polled 301 times, after each poll every one-decode continuation on a copy: "
+						  "reset,%.16s...(len=%d)", b, s, c19_log, (int)c19_loglen);
+				c19_back(&base);
+			}
+		}
+	}
+	c19_quiet = 0;
+}
+
+/* --------------------------------------------------------------- dwell family */
+
+static void c19_suffixes(int depth, int left)
+{
+	c19_mark m;
+	if (!left) return;
+	c19_save(&m, depth);
+	for (int t = 0; t < 4; t++) {
+		if (!c19_step(t)) { c19_step(C19_OP_READ); c19_suffixes(depth + 1, left - 1); }
+		c19_back(&m);
+	}
+}
+static void c19_dwell_case(const void *arg)
+{
+	const int *a = arg;		/* prefix length, prefix code, dwell state, main line reads, polls, continuation depth */
+	uint64_t f0 = c19_nfail;
+	c19_walker_reads = a[3];
+	for (int i = 0, code = a[1]; i < a[0]; i++, code >>= 2)
+		if (c19_step_observed(code & 3, 1) || c19_nfail != f0) return;
+	for (int n = 0; n <= a[4]; n++) {			/* n = 0: the step to the state, then the identical polls */
+		if (c19_step_observed(a[2], 1) || c19_nfail != f0) return;
+		c19_suffixes(1, a[5]);
+		if (c19_nfail != f0) return;
+	}
+}
+/* every prefix of <= maxp decodes x 4 dwell states x main line reading / never reading */
+static void c19_dwell_family(int maxp, int polls, int q, uint64_t *job)
+{
+	int sampled = 0;
+	c19_cur = &c19_fs[F_DWELL];
+	for (int plen = 0; plen <= maxp && !c19_stop; plen++)
+		for (int code = 0; code < (1 << (2 * plen)) && !c19_stop; code++, (*job)++) {
+			if (!c19_mine_fam(*job)) continue;
+			c19_bad = 0;
+			for (int s = 0; s < 4 && !c19_giveup(); s++)
+				for (int rd = 0; rd < 2 && !c19_giveup(); rd++) {
+					int a[6] = { plen, code, s, rd, polls, q };
+					c19_reset();
+					c19_case(c19_dwell_case, a);
+					if (!sampled && plen == maxp && code == 0 && s == 0 && rd == 1 && vx_want_sample()) {
+						sampled = 1;
+						vx_sample("dwell: prefix of %d decodes, then state %d polled %d times, main line reading count14 after every "
+							  "decode, after each poll every continuation of <= %d decodes on copies: reset,%.16s...(len=%d)",
+							  plen, s, polls + 1, q, c19_log, (int)c19_loglen);
+					}
+				}
+		}
+	c19_walker_reads = 1;
+}
+
+/* --------------------------------------------------------------------- search */
+
+static int c19_W;				/* drift window in clicks */
+static vx_bfs c19_B;
+
+static int c19_bfs_enabled(int op)
+{
+	if (op == C19_OP_READ) return 1;
+	int32_t T = c19_S.T + c19_delta(c19_S.mlast, op);
+	int32_t L = op == 0 ? (int32_t)c19_floordiv4(T) : c19_S.L;
+	int32_t d = T - 4 * L;
+	return d >= -4 * c19_W && d <= 4 * c19_W;
+}
+static void c19_bfs_describe(int op, vx_sb *sb) { if (op == C19_OP_READ) vx_sb_printf(sb, "r"); else vx_sb_printf(sb, "%d", op); }
+static void c19_bfs_canon(vx_hasher *h)
+{
+	vx_h_bytes(h, &c19_S.r, sizeof(rotenc_t));	/* the WHOLE object; the library's statics are added by vx_bfs_run */
+	vx_h_u64(h, ((uint64_t)c19_umod(c19_S.T, 65536) << 32) | ((uint64_t)c19_S.mlast << 8) | c19_S.valid);
+	vx_h_u64(h, (uint64_t)(int64_t)(c19_S.T - 4 * c19_S.L));
+}
+/* history of stored state idx (+ one more op if >= 0) as a string of 0..3 / r; caller frees */
+static char *c19_bfs_ops(uint64_t idx, int extra, size_t *len)
+{
+	int n = 0;
+	for (uint64_t j = idx; c19_B.st.parent[j] != VX_NOPARENT; j = c19_B.st.parent[j]) n++;
+	uint32_t *ops = malloc(sizeof(uint32_t) * ((size_t)n + 2));
+	char *s = malloc((size_t)n + 3);
+	if (!ops || !s) { fprintf(stderr, "c19: out of memory (history)\n"); _exit(3); }
+	n = vx_store_trace(&c19_B.st, idx, ops, n + 1);
+	if (extra >= 0) ops[n++] = (uint32_t)extra;
+	for (int i = 0; i < n; i++) s[i] = (char)(ops[i] == C19_OP_READ ? 'r' : '0' + ops[i]);
+	s[n] = 0; *len = (size_t)n;
+	free(ops);
+	return s;
+}
+/* report a violation of the current BFS transition, first hit of its class only */
+static void c19_bfs_report(const char *cls, const char *detail, const char *msg)
+{
+	if (!c19_class_hit(cls)) return;
+	vx_sb rep = {0}, sig = {0};
+	char sh[160], img[80];
+	size_t n; char *hist = c19_bfs_ops(c19_B.cur, c19_B.cur_op, &n);
+	vx_sb_printf(&rep, "part=2\nconfig=%s\nops=", c19_B.name);
+	for (size_t i = 0; i < n; i++) vx_sb_printf(&rep, "%s%d", i ? " " : "", hist[i] == 'r' ? C19_OP_READ : hist[i] - '0');
+	vx_sb_printf(&rep, "\n");
+	c19_short_history(hist, n, sh, sizeof(sh));
+	c19_image(img, sizeof(img));
+	vx_sb_printf(&sig, "C19/seq|%s|%s|min:%s", cls, detail, sh);
+	vx_violation(sig.s, rep.s, "%s: %s -- shortest history from reset (0..3 = decode that state, r = read count14): %s; ghost T=%d quarter steps, "
+		     "latched L=%d clicks; rotenc_t image=%s", cls, msg, sh, c19_S.T, c19_S.L, img);
+	free(hist); free(rep.s); free(sig.s);
+}
+static int c19_bfs_apply(int op) { return c19_step(op); }
+
+static void c19_bfs_setup(int w)
+{
+	static char name[16];
+	c19_cur = &c19_fs[F_SEQ];
+	c19_reporter = c19_bfs_report;
+	c19_logging = 0;
+	c19_arm_calls = 1;
+	c19_reset();
+	c19_W = w;
+	snprintf(name, sizeof(name), "W%d", w);
+	memset(&c19_B, 0, sizeof(c19_B));
+	c19_B.live = &c19_S; c19_B.size = sizeof(c19_S); c19_B.nops = C19_NOPS; c19_B.enabled = c19_bfs_enabled; c19_B.apply = c19_bfs_apply;
+	c19_B.canon = c19_bfs_canon; c19_B.describe = c19_bfs_describe; c19_B.name = name;
+	/* the canonical space of the decoder as the statement describes it has < 65536 * (8W+1) * 3 states; an implementation
+	 * with a wider position or hidden counters can have more - the search then stops here and says so */
+	c19_B.max_states = 65536ULL * (8ULL * (uint64_t)w + 2);
+}
+
+static void c19_search(int w)
+{
+	c19_bfs_setup(w);
+	vx_set_init(&c19_obs, 20); vx_set_init(&c19_posset, 18);
+	c19_obs_on = 1;
+	vx_bfs_run(&c19_B);
+	c19_obs_on = 0;
+	vx_count("states", c19_B.states); vx_count("transitions", c19_B.transitions); vx_count("traces", c19_B.transitions);
+	vx_count("distinct", c19_obs.n);
+	vx_count("seq_states", c19_B.states); vx_count("seq_transitions", c19_B.transitions);
+	vx_count("seq_distinct_observations_op_position_count_count14", c19_obs.n);
+	vx_count("seq_distinct_true_positions_mod_65536", c19_posset.n);
+	vx_count("seq_scope_guard_disabled_steps", c19_B.disabled);
+	vx_count("seq_drift_window_clicks", (uint64_t)w);
+	vx_count("seq_state_image_bytes_rotenc_t", sizeof(rotenc_t));
+	vx_count("seq_state_image_bytes_library_statics", vx_lib_size());
+	vx_and("exhaustive", c19_B.fixpoint && !c19_B.capped);
+	vx_and("seq_fixpoint", c19_B.fixpoint && !c19_B.capped);
+	vx_max("seq_bfs_depth", (uint64_t)c19_B.depth_done);
+	if (c19_B.capped) vx_note("the search stopped before the fixpoint (deadline / state cap %llu / violation cap): states=%llu depth completed=%d",
+				  (unsigned long long)c19_B.max_states, (unsigned long long)c19_B.states, c19_B.depth_done);
 	/* sample: the deepest state's history */
-	static uint32_t ops[70000];
-	int n = vx_store_trace(&B.st, B.st.n - 1, ops, 70000);
-	char *full = malloc((size_t)n + 1); for (int i = 0; i < n; i++) full[i] = (char)('0' + ops[i]); full[n] = 0;
-	char sh[160]; short_history(full, sh, sizeof(sh)); free(full);
-	vx_sample("part 2 (W=%d clicks): %llu states, %llu transitions, fixpoint=%d, BFS depth %d, ghost T range [%d,%d] quarter steps, "
-		  "%llu distinct positions mod 2^16; deepest history: states %s", w, (unsigned long long)B.states,
-		  (unsigned long long)B.transitions, B.fixpoint, B.depth_done, p2_Tmin, p2_Tmax, (unsigned long long)p2_pos.n, sh);
-	vx_bfs_free(&B);
+	size_t n; char *full = c19_bfs_ops(c19_B.st.n - 1, -1, &n);
+	char sh[160]; c19_short_history(full, n, sh, sizeof(sh)); free(full);
+	vx_sample("seq (W=%d clicks): %llu states, %llu transitions, fixpoint=%d, BFS depth %d, %llu distinct positions mod 2^16; deepest history "
+		  "(0..3 decode, r read count14): %s", w, (unsigned long long)c19_B.states, (unsigned long long)c19_B.transitions,
+		  c19_B.fixpoint, c19_B.depth_done, (unsigned long long)c19_posset.n, sh);
+	vx_bfs_free(&c19_B);
 }
 
 /* ---------------------------------------------------------------------- main */
 
-static int wparam(void)
+static int c19_wparam(void)
 {
 	const char *e = getenv("C19_W");
 	if (e && atoi(e) > 0) return atoi(e);
-	return vx_thorough() ? 100 : 2;
+	return vx_thorough() ? 100 : 3;
 }
+
+static void c19_replay_script(const char *rp)
+{
+	const char *f = vx_replay_field(rp, "fam");
+	c19_cur = &c19_fs[F_STEP];
+	for (int i = 0; f && i < F_N; i++) if (!strcmp(c19_fs[i].name, f)) c19_cur = &c19_fs[i];
+	c19_reporter = c19_fam_report;
+	c19_reset();
+	const char *p = strstr(rp, "ops=");
+	if (!p) return;
+	p += 4;
+	if (VX_TRY) {
+		for (; *p == 'r' || (*p >= '0' && *p <= '3'); p++)
+			if (c19_step(*p == 'r' ? C19_OP_READ : *p - '0')) break;
+		VX_END;
+	} else {
+		VX_END;
+		c19_fail("fault", vx_fault_msg, "fault in rotenc_decode / rotenc_count14: %s", vx_fault_msg);
+	}
+}
+
+/* both sides of every power of two a latched count could be cut to or sign-extended at */
+static const int c19_quick_counts[] = { 0, 1, 2, 31, 32, 63, 64, 65, 127, 128, 129, 191, 192, 193, 254, 255 };
 
 int main(int argc, char **argv)
 {
 	vx_init(argc, argv);
 	vx_install_handlers();
-	vx_watchdog(2.0);
+	vx_watchdog(2.0);	/* c19_step advances vx_opseq: only a library call that really hangs can be seen standing still */
+	c19_libsz = vx_lib_size();
+	c19_libstack = malloc(C19_MAXDEPTH * (c19_libsz ? c19_libsz : 1));
+	c19_log = malloc(C19_LOGCAP);
+	if (!c19_libstack || !c19_log) { fprintf(stderr, "c19: out of memory\n"); return 3; }
 	char *rp = vx_read_replay();
 	if (rp) {
 		const char *f = vx_replay_field(rp, "part");
-		if (f && atoi(f) == 1) {
-			int last = atoi(vx_replay_field(rp, "last")); unsigned internal = (unsigned)atoi(vx_replay_field(rp, "internal"));
-			unsigned count = (unsigned)atoi(vx_replay_field(rp, "count")); int next = atoi(vx_replay_field(rp, "next"));
-			int next2 = atoi(vx_replay_field(rp, "next2"));
-			if (VX_TRY) { p1_case(last & 3, internal & 0xffff, count & 0xff, next & 3, next2 < 0 ? 4 : next2); VX_END; }
-			else {
-				VX_END;
-				char sig[128]; snprintf(sig, sizeof(sig), "C19/step|fault|%d->%d|%s", last, next, vx_fault_msg);
-				vx_violation(sig, rp, "fault: %s", vx_fault_msg);
-			}
-		} else if (f && atoi(f) == 2) {
+		if (f && atoi(f) == 2) {
 			const char *cn = vx_replay_field(rp, "config");
 			int w = cn && cn[0] == 'W' ? atoi(cn + 1) : 2;
-			p2_setup(w);
-			vx_set_init(&p2_obs, 12); vx_set_init(&p2_pos, 12);
-			vx_bfs_replay(&B, rp);
-		}
+			c19_bfs_setup(w);
+			vx_bfs_replay(&c19_B, rp);
+		} else c19_replay_script(rp);
 		vx_finish();
 		return 0;
 	}
-	vx_set_init(&p1_obs, 10);
-	/* partitions 0..15: part 1 by (last,next); partition 16: the BFS (one search, one worker) */
-	for (int p = 0; p < 16; p++) {
-		if (!vx_mine((uint64_t)p)) continue;
-		part1(p >> 2, p & 3);
-		if (vx_deadline_passed()) { vx_and("exhaustive", 0); vx_note("part 1 cut short by the deadline"); break; }
+	vx_and("exhaustive", 1);
+	c19_reporter = c19_fam_report;
+	vx_set_init(&c19_step_obs, 12);
+	uint64_t job = 0;
+	int thorough = vx_thorough();
+
+	/* step family: 4 rotation paths + 2 lap paths per latched count */
+	for (int p = 0; p < 4 && !c19_stop; p++, job++)
+		if (c19_mine_fam(job)) c19_step_path(0, 0, (p & 1) ? -1 : +1, (p & 2) ? 2 : 0);
+	int ncounts = thorough ? 256 : (int)(sizeof(c19_quick_counts) / sizeof(c19_quick_counts[0]));
+	for (int i = 0; i < ncounts && !c19_stop; i++)
+		for (int d = 0; d < 2; d++, job++)
+			if (c19_mine_fam(job)) c19_step_path(1, thorough ? i : c19_quick_counts[i], d ? -1 : +1, 0);
+	if (c19_step_starts && c19_mine_fam(0) && vx_want_sample())
+		vx_sample("step: a path of real decodes (here the last one of this worker: %d operations from reset, ends ...%.24s) visits every "
+			  "reachable (last_state, position) pair for one latched count; from each visited state decode(0..3), read, decode(0..3), read "
+			  "on copies of the whole rotenc_t", (int)c19_loglen, c19_loglen >= 24 ? c19_log + c19_loglen - 24 : "");
+
+	/* walk family with its drift / gap / rest cases */
+	for (int w = 0; w < 8 && !c19_stop; w++)
+		for (int sh = 0; sh < C19_WALK_SPLIT; sh++, job++)
+			if (c19_mine_fam(job)) c19_walker(w, sh);
+
+	/* dwell family: many short prefixes x 300 polls x deep continuations, few prefixes x 66000 polls x one-step continuations */
+	c19_dwell_family(thorough ? 6 : 4, 300, thorough ? 3 : 2, &job);
+	c19_dwell_family(thorough ? 3 : 2, 66000, 1, &job);
+
+	uint64_t fam_decodes = 0;
+	for (int i = 1; i < F_N; i++) {
+		char nm[64];
+		if (!c19_fs[i].cases) continue;
+		snprintf(nm, sizeof(nm), "%s_cases", c19_fs[i].name); vx_count(nm, c19_fs[i].cases);
+		snprintf(nm, sizeof(nm), "%s_decodes", c19_fs[i].name); vx_count(nm, c19_fs[i].decodes);
+		snprintf(nm, sizeof(nm), "%s_count14_reads", c19_fs[i].name); vx_count(nm, c19_fs[i].reads);
+		fam_decodes += c19_fs[i].decodes;
 	}
-	if (p1_cases) {
-		vx_count("states", p1_prestates);	/* distinct start states (last, internal, count); counted in the next==0 partitions only */
-		vx_count("transitions", p1_steps); vx_count("traces", p1_steps);
-		vx_count("p1_start_points", p1_cases); vx_count("p1_decode_steps", p1_steps);
-		vx_count("p1_distinct_step_classes", p1_obs.n);
-		vx_count("p1_latches_at_detent", p1_latches);
-		vx_count("p1_scope_guard_unreachable_start_states_skipped", p1_unreachable_skipped);
-		for (int i = 0; i < 4; i++) { char nm[64]; snprintf(nm, sizeof(nm), "p1_kind_%s", kname[i]); vx_count(nm, p1_kind[i]); }
-		if (vx_mine(0)) vx_sample("part 1: start {last_state=0, internal_count=0..65535, count=%s}, decode(0) then decode(0..3): +1/-1/0 rule and latch rule",
-					  vx_thorough() ? "0..255" : "0,1,127,128,254,255,clicks,clicks+1");
+	if (fam_decodes) {
+		vx_count("states", c19_step_starts);		/* decoder states visited by the step paths (each probed two decodes deep) */
+		vx_count("transitions", fam_decodes); vx_count("traces", fam_decodes);
+		vx_count("step_start_states_visited_by_real_paths", c19_step_starts);
+		vx_count("step_distinct_path_regions_last_count_position_div_1024", c19_step_obs.n);
+		vx_max("drift_max_quarter_steps_from_latch", c19_drift_max_q);
 	}
-	if (vx_mine(16)) part2(wparam());
-	for (int i = 0; i < nclasses; i++) {
-		char nm[64]; snprintf(nm, sizeof(nm), "p2_violating_transitions[%.40s]", classes[i].key);
-		vx_count(nm, classes[i].hits);
+	if (c19_log_overflow) { vx_and("exhaustive", 0); vx_note("operation log overflow: a replay text would be incomplete"); }
+
+	if (vx_mine(16)) c19_search(c19_wparam());
+
+	for (int i = 0; i < 4; i++) { char nm[64]; snprintf(nm, sizeof(nm), "kind_%s", c19_kname[i]); vx_count(nm, c19_kinds[i]); }
+	vx_count("decodes_to_detent_state", c19_detents);
+	vx_count("count14_judged_against_latch", c19_c14_judged);
+	vx_count("count14_not_judged_drift_beyond_127_clicks", c19_c14_out_of_scope);
+	vx_count("oneclick_checked", c19_oneclick_checked);
+	vx_count("oneclick_skipped_after_invalid_jump", c19_oneclick_skipped);
+	vx_count("steps_across_16bit_wrap_up", c19_wrap16_up); vx_count("steps_across_16bit_wrap_down", c19_wrap16_down);
+	vx_count("steps_across_256click_boundary_up", c19_wrap8_up); vx_count("steps_across_256click_boundary_down", c19_wrap8_down);
+	vx_max("ghost_T_min_negated", (uint64_t)(-(int64_t)c19_Tmin)); vx_max("ghost_T_max", (uint64_t)c19_Tmax);
+	for (int i = 0; i < c19_nclasses; i++) {
+		char nm[64]; snprintf(nm, sizeof(nm), "violating[%.50s]", c19_classes[i].key);
+		vx_count(nm, c19_classes[i].hits);
 	}
 	vx_finish();
 	return 0;
